@@ -23,6 +23,7 @@ import (
 	"sync"
 
 	"github.com/cloudwego/eino/internal/generic"
+	"github.com/cloudwego/eino/internal/verifhook"
 	"github.com/cloudwego/eino/schema"
 )
 
@@ -56,8 +57,11 @@ func convertPreHandler[I, S any](handler StatePreHandler[I, S]) *composableRunna
 		if err != nil {
 			return in, err
 		}
+		verifhook.Y("state.lock.pre")
 		pMu.Lock()
 		defer pMu.Unlock()
+		defer verifhook.Y("state.unlock.pre")
+		verifhook.Y("state.lock.post")
 
 		return handler(ctx, in, cState)
 	}
@@ -71,8 +75,11 @@ func convertPostHandler[O, S any](handler StatePostHandler[O, S]) *composableRun
 		if err != nil {
 			return out, err
 		}
+		verifhook.Y("state.lock.pre")
 		pMu.Lock()
 		defer pMu.Unlock()
+		defer verifhook.Y("state.unlock.pre")
+		verifhook.Y("state.lock.post")
 
 		return handler(ctx, out, cState)
 	}
@@ -86,8 +93,11 @@ func streamConvertPreHandler[I, S any](handler StreamStatePreHandler[I, S]) *com
 		if err != nil {
 			return in, err
 		}
+		verifhook.Y("state.lock.pre")
 		pMu.Lock()
 		defer pMu.Unlock()
+		defer verifhook.Y("state.unlock.pre")
+		verifhook.Y("state.lock.post")
 
 		return handler(ctx, in, cState)
 	}
@@ -101,8 +111,11 @@ func streamConvertPostHandler[O, S any](handler StreamStatePostHandler[O, S]) *c
 		if err != nil {
 			return out, err
 		}
+		verifhook.Y("state.lock.pre")
 		pMu.Lock()
 		defer pMu.Unlock()
+		defer verifhook.Y("state.unlock.pre")
+		verifhook.Y("state.lock.post")
 
 		return handler(ctx, out, cState)
 	}
@@ -117,8 +130,11 @@ func GetState[S any](ctx context.Context) (S, error) {
 	state := ctx.Value(stateKey{})
 
 	iState := state.(*internalState)
+	verifhook.Y("state.lock.pre")
 	iState.mu.Lock()
 	defer iState.mu.Unlock()
+	defer verifhook.Y("state.unlock.pre")
+	verifhook.Y("state.lock.post")
 	cState, ok := iState.state.(S)
 	if !ok {
 		var s S
@@ -154,8 +170,11 @@ func ProcessState[S any](ctx context.Context, handler func(context.Context, S) e
 	if err != nil {
 		return fmt.Errorf("get state from context fail: %w", err)
 	}
+	verifhook.Y("state.lock.pre")
 	pMu.Lock()
 	defer pMu.Unlock()
+	defer verifhook.Y("state.unlock.pre")
+	verifhook.Y("state.lock.post")
 	return handler(ctx, s)
 }
 
